@@ -92,7 +92,7 @@ def _lock_order(ctx, model, out_dir):
         n_edges += len(edges)
         order, cycle = _find_cycle(edges)
         if cycle is not None:
-            classes = ">".join(CLASS_NAMES.get(c, str(c)) for (c, _) in cycle)
+            classes = "+".join(sorted(set(CLASS_NAMES.get(c, str(c)) for (c, _) in cycle)))
             if classes not in cyc_seen:
                 cyc_seen.add(classes)
                 ctx.violation("lock-order-cycle:" + classes,
@@ -199,7 +199,14 @@ def run(ctx):
     n = 0
     diffs = []
     if ctx.build_harness("c14"):
-        rc, out = ctx.run_harness("c14", out_dir=out_dir, timeout=3000 if ctx.tier == "thorough" else 900)
+        # corpus/C14/*.json (minimised scenarios of the findings) are run first, then the generated ones
+        extra = ["corpus=" + os.path.join(common.VERIF, "corpus", "C14")]
+        if ctx.tier != "thorough":
+            extra.append("scenarios=36")  # + 5 corpus scenarios; sized by measurement (see the report)
+        else:
+            extra.append("par=10")
+        rc, out = ctx.run_harness("c14", extra=extra, out_dir=out_dir,
+                                  timeout=3400 if ctx.tier == "thorough" else 1200)
         if rc == 0 and os.path.exists(os.path.join(out_dir, "stats.json")):
             ran = True
             stats = json.load(open(os.path.join(out_dir, "stats.json")))
@@ -241,7 +248,7 @@ def run(ctx):
         ctx.coverage["exhaustive"] = False
         ctx.coverage["samples"] = [{"scenario": cases[i], "observed": impl[i][:300]} for i in (0, len(cases) // 3, len(cases) // 2, len(cases) - 1) if i < len(cases)]
         for k in ("program_runs", "forced_collections", "root_collections", "module_bodies_evaluated", "solo_units", "worlds", "watchdog_s",
-                  "max_scenario_wall_ms", "solo_ms", "run_ms", "reruns_after_busy_timeout"):
+                  "max_scenario_wall_ms", "solo_ms", "run_ms", "reruns_after_busy_timeout", "corpus_scenarios"):
             ctx.coverage[k] = stats.get(k)
         ctx.coverage["scheduler"] = "sampled (OS scheduler + seeded start delays / yields / sleeps); seed %d" % ctx.seed
         if not stats.get("module_bodies_evaluated") or not stats.get("forced_collections"):
@@ -266,7 +273,7 @@ def run(ctx):
     # re-runs (reproduction rate) and shrinking are bounded by a time budget: a deadlock costs a
     # whole watchdog period per run
     budget = 600 if ctx.tier == "thorough" else 0
-    rerun_until = time.time() + (480 if ctx.tier == "thorough" else 50)
+    rerun_until = time.time() + (480 if ctx.tier == "thorough" else 30)
     reps = 8 if ctx.tier == "thorough" else 2
     for gi, (key, fs) in enumerate(sorted(groups.items())):
         first = fs[0]
